@@ -865,6 +865,7 @@ pub fn exec_w3(s: &W3Script) -> W3Report {
     } else {
         match s.elem {
             VT::Big => run_vec::<Big<0>>(s, bump, &mut ck, &mut stats),
+            VT::Wide => run_vec::<crate::track::Wide<0>>(s, bump, &mut ck, &mut stats),
             VT::Zt => run_vec::<Zt<0>>(s, bump, &mut ck, &mut stats),
             _ => run_vec::<Tr<0>>(s, bump, &mut ck, &mut stats),
         }
@@ -913,7 +914,7 @@ use crate::track::{TICK_CLONE, TICK_DEFAULT, TICK_DROP, TICK_EQ};
 
 pub fn gen_w3(seed: u64) -> W3Script {
     let mut r = Rng::new(seed).sub(5);
-    let elem = *r.pick(&[VT::Tr, VT::Tr, VT::Tr, VT::Big, VT::Zt]);
+    let elem = *r.pick(&[VT::Tr, VT::Tr, VT::Tr, VT::Tr, VT::Big, VT::Big, VT::Zt, VT::Zt, VT::Wide]);
     let n_pre = match r.below(6) {
         // now and then a vector of several pages: size-dependent paths (bulk drops, moves of
         // whole pages) only exist above such thresholds
